@@ -177,6 +177,8 @@ class Recorder:
               "layer_tags": rng.choice([("KET", "BRA"), None])}
         if rng.random() < 0.5:
             kw["cutoff"] = 0.0
+        if kw["mode"] == "full-bond" and kw["max_bond"] is None:
+            kw["max_bond"] = 256      # this mode compares bond sizes with the cap: it needs a number
         opts = ",".join("%s=%s" % kv for kv in sorted(kw.items()))
         if route == "peps_compute_norm":
             rec = {"ev": "norm", "tid": self.tid, "route": route, "exc": "", "excmsg": "", "ongrid": True, "val": [0, 0], "opts": opts}
@@ -337,6 +339,7 @@ def run(ctx):
 
     # ---- evidence
     unavailable = {}
+    examples = {}
     cls_of = {x["tid"]: x["cls"] for x in recs if x["ev"] == "new"}
     for r in recs:
         if r.get("exc"):
@@ -344,8 +347,10 @@ def run(ctx):
                                        len(r.get("sites", [])), "" if r.get("asc", True) else ",descending",
                                        ",bare" if r.get("bare") else "", r["exc"])
             unavailable[k] = unavailable.get(k, 0) + 1
+            examples.setdefault(k, "%s | %s" % (r.get("excmsg", "")[:120], r.get("opts", "")[:200]))
     ctx.extra["routes"] = stats
     ctx.extra["route_unavailable_for_input"] = unavailable
+    ctx.extra["route_unavailable_examples"] = examples
     ctx.extra["requests_made"] = nasked
     ctx.extra["not_exercised"] = [
         "sloop/gloop expansions with automatically generated loops on trees, PEPS and loopy graphs (approximations by design; complete only on a single ring)",
